@@ -306,23 +306,15 @@ func (f *Func) failureReturnsError(call *ast.CallExpr) bool {
 			continue
 		}
 		for k := 0; k < 2; k++ {
-			var atoms []Atom
-			splitAtoms(cond, k == 0, &atoms)
+			// edge k is where *every* failure goes exactly when the other edge implies err == nil: `if err != nil {…}` and
+			// `if err != nil || other {…}` qualify, `if err != nil && other {…}` does not (with other false the failure
+			// falls through)
+			var other []Atom
+			splitAtoms(cond, k != 0, &other)
 			says := false
-			for _, a := range atoms {
-				if AtomSaysNil(a, false, func(e ast.Expr) bool { return f.ObjOf(e) == errObj }) {
+			for _, a := range other {
+				if AtomSaysNil(a, true, func(e ast.Expr) bool { return f.ObjOf(e) == errObj }) {
 					says = true
-				}
-			}
-			// `if err != nil || other { return … }`: the true edge does not imply err != nil, but the false edge implies
-			// err == nil, so the true edge is where a failure goes
-			if !says {
-				var other []Atom
-				splitAtoms(cond, k != 0, &other)
-				for _, a := range other {
-					if AtomSaysNil(a, true, func(e ast.Expr) bool { return f.ObjOf(e) == errObj }) {
-						says = true
-					}
 				}
 			}
 			if !says || g.writtenBetween(errObj, cv, ev-1) {
@@ -511,12 +503,10 @@ func (f *Func) failureEdges(call *ast.CallExpr) []int {
 			continue
 		}
 		for k := 0; k < 2; k++ {
-			var atoms, other []Atom
-			splitAtoms(cond, k == 0, &atoms)
+			// as in failureReturnsError: the edge on which every failure travels is the one whose sibling implies err == nil
+			var other []Atom
 			splitAtoms(cond, k != 0, &other)
-			says := hasAtom(atoms, func(a Atom) bool {
-				return AtomSaysNil(a, false, func(e ast.Expr) bool { return f.ObjOf(e) == errObj })
-			}) || hasAtom(other, func(a Atom) bool {
+			says := hasAtom(other, func(a Atom) bool {
 				return AtomSaysNil(a, true, func(e ast.Expr) bool { return f.ObjOf(e) == errObj })
 			})
 			if says {
@@ -567,4 +557,50 @@ func (f *Func) boundErrorIsReturned(call *ast.CallExpr) bool {
 		}
 	}
 	return n > 0
+}
+
+// semanticLeaves counts the atomic tests (leaves of && / || / !) of all conditions that guard vertex v, leaving out
+// nil tests (a defensive `x != nil` may come and go without changing behaviour). It is the size of the gate in front
+// of v: a gate that grows by a test on some unrelated flag has been narrowed. Conditions outside the top-level statement
+// that contains v (early returns further up) are not counted.
+func (g *Graph) semanticLeaves(v int) (int, string) {
+	n := 0
+	var parts []string
+	// only conditions inside the same top-level statement of the function body count: an early return further up is a
+	// different decision (and may come and go for reasons that have nothing to do with this gate)
+	var top ast.Node
+	if at := g.node[v]; at != nil {
+		for _, st := range g.F.Body.List {
+			if encloses(st, at) {
+				top = st
+			}
+		}
+	}
+	for _, cv := range g.guardingConds(v) {
+		e, ok := g.node[cv].(ast.Expr)
+		if !ok {
+			continue
+		}
+		if top != nil && !encloses(top, e) {
+			continue
+		}
+		var leaves []Atom
+		splitAtoms(e, true, &leaves)
+		for _, a := range leaves {
+			if isCompound(a.E) {
+				continue
+			}
+			if _, _, isNil := NilTest(a.E); isNil {
+				continue
+			}
+			if inner, neg := stripNot(a.E); neg {
+				if _, _, isNil := NilTest(inner); isNil {
+					continue
+				}
+			}
+			n++
+			parts = append(parts, exprStr(a.E))
+		}
+	}
+	return n, strings.Join(parts, " ; ")
 }
